@@ -7,8 +7,9 @@ TOOL = 5
 
 
 class LineWitness:
-    def __init__(self, func, labels=None, name=None):
+    def __init__(self, func, labels=None, name=None, tool=TOOL):
         """labels: {substring of stripped source line: label}; duplicates get #2, #3 suffixes."""
+        self.tool = tool
         self.func = getattr(func, "__func__", func)
         self.code = self.func.__code__
         self.name = name or self.func.__qualname__
@@ -49,20 +50,20 @@ class LineWitness:
     def __enter__(self):
         mon = sys.monitoring
         try:
-            mon.use_tool_id(TOOL, "verif-witness")
+            mon.use_tool_id(self.tool, "verif-witness-%d" % self.tool)
         except ValueError:
             pass
-        mon.register_callback(TOOL, mon.events.LINE, self._cb)
-        mon.set_local_events(TOOL, self.code, mon.events.LINE)
+        mon.register_callback(self.tool, mon.events.LINE, self._cb)
+        mon.set_local_events(self.tool, self.code, mon.events.LINE)
         self.active = True
         return self
 
     def __exit__(self, *a):
         mon = sys.monitoring
-        mon.set_local_events(TOOL, self.code, 0)
-        mon.register_callback(TOOL, mon.events.LINE, None)
+        mon.set_local_events(self.tool, self.code, 0)
+        mon.register_callback(self.tool, mon.events.LINE, None)
         try:
-            mon.free_tool_id(TOOL)
+            mon.free_tool_id(self.tool)
         except Exception:  # noqa
             pass
         self.active = False
